@@ -168,6 +168,10 @@ func vacuityCorpus(verif, repo, prop string) []map[string]string {
 		return nil
 	}
 	var out []map[string]string
+	// the bounded stand-ins run at the quick bound while seeded changes are replayed
+	saved := boundedTier
+	boundedTier = "quick"
+	defer func() { boundedTier = saved }()
 	for _, m := range corpus {
 		has := false
 		for _, p := range m.Props {
